@@ -2,7 +2,6 @@ package proxy
 
 import (
 	"context"
-	"math"
 	"slices"
 	"strconv"
 	"strings"
@@ -37,22 +36,32 @@ func NewReplicationStreamObserver(logger loggable) *ReplicationStreamObserver {
 		logger:         logger,
 	}
 }
+
+// maxObservedStreamIndex bounds the indices the observer tracks. It is far above any real history shard count;
+// larger values can only come from malformed stream metadata and are not worth gigabytes of counters.
+const maxObservedStreamIndex = 1 << 20
+
 func (s *ReplicationStreamObserver) ReportStreamValue(idx int32, value int32) {
 	if idx < 0 {
 		s.logger.Warn("ReplicationStreamObserver NotifyConnect called with negative streamIndex")
 		return
 	}
+	if idx > maxObservedStreamIndex {
+		s.logger.Warn("ReplicationStreamObserver NotifyConnect called with out-of-range streamIndex")
+		return
+	}
 	s.streamGrowLock.Lock()
+	// Never leave the lock held, whatever happens below: every stream reports through here.
+	defer s.streamGrowLock.Unlock()
 	// We want to grow the minimum number of times, so
-	if idx >= int32(len(s.streamActive)) {
+	if int(idx) >= len(s.streamActive) {
 		// Each index will be uniformly random in the range [0, maxStreams). Growing by a percentage of index helps
 		// minimize the amount of reallocation required. Starting with increasing to 125% of idx to keep memory waste low
-		newSize := min(int((idx+1)*9), math.MaxInt32) / 8
+		newSize := (int(idx) + 1) * 9 / 8
 		// grow and maximize
 		s.streamActive = slices.Grow(s.streamActive, newSize)[:newSize]
 	}
 	s.streamActive[idx].Add(value)
-	s.streamGrowLock.Unlock()
 }
 func (s *ReplicationStreamObserver) PrintActiveStreams() string {
 	sb := strings.Builder{}
